@@ -138,9 +138,33 @@ _boxed: dict = {}
 BOX_FACTS: list = []
 
 
+_BINDER_PREFIXES = {"nx2", "stj", "lj", "zj", "zj2", "pj", "aj", "uj", "xj", "ci", "q", "a", "b", "j2", "ei", "bf_i"}
+box = z3.Function("box", z3.IntSort(), V)
+
+
+def mentions_binder(t) -> bool:
+    """The Int term mentions a constant that stands for a variable bound (or about to be bound) by a quantifier/lambda."""
+    seen, stack = set(), [t]
+    while stack:
+        x = stack.pop()
+        if x.get_id() in seen or not z3.is_app(x):
+            continue
+        seen.add(x.get_id())
+        if z3.is_const(x) and x.decl().kind() == z3.Z3_OP_UNINTERPRETED:
+            n = x.decl().name()
+            if "%" in n or ("!" in n and n.split("!")[0] in _BINDER_PREFIXES):
+                return True
+        stack.extend(x.children())
+    return False
+
+
 def mkint(i):
-    """Box an Int expression: one V constant per distinct expression, tied by ival (no quantified inverse)."""
+    """Box an Int expression: one V constant per distinct GROUND expression, tied by ival (no quantified inverse).  An
+    expression that depends on a bound variable is boxed by the function `box` instead (one box per value of the variable):
+    a memoised constant there would make every element of a comprehension the same object."""
     i = i if z3.is_expr(i) else z3.IntVal(int(i))
+    if not z3.is_int_value(i) and mentions_binder(i):
+        return box(i)
     key = i.get_id()
     if key not in _boxed:
         c = z3.Const(f"int:{i}" if z3.is_int_value(i) else fresh_name("boxed"), V)
@@ -225,6 +249,8 @@ def base_axioms():
     a, b = z3.Const("ax_a", V), z3.Const("ax_b", V)
     ax.append(z3.ForAll([a, b], z3.Implies(z3.And(is_int(a), is_int(b), ival(a) == ival(b)), a == b), patterns=[z3.MultiPattern(is_int(a), is_int(b))]))
     ax += BOX_FACTS
+    n = z3.Int("ax_n")
+    ax.append(z3.ForAll([n], z3.And(is_int(box(n)), ival(box(n)) == n, Alloc0(box(n))), patterns=[box(n)]))
     # class predicates: objects of repo classes are none of the builtin kinds and are truthy
     return ax
 
@@ -326,10 +352,14 @@ def heap_wellformed_ref(h: Heap, ref, kind: str):
     if kind == "q":
         return [h.c["sl"][ref] >= 0]
     has, size = (h.c["dh"][ref], h.c["dn"][ref]) if kind == "d" else (h.c["sh"][ref], h.c["sn"][ref])
+    k2 = z3.Const(fresh_name("wk"), V)
     return [
         size >= 0,
         z3.ForAll([k], z3.Implies(has[k], size > 0)),
         z3.Implies(size > 0, z3.Exists([k], has[k])),
+        # more than one element  <=>  two different members
+        z3.Implies(size > 1, z3.Exists([k, k2], z3.And(has[k], has[k2], k != k2))),
+        z3.Implies(size <= 1, z3.ForAll([k, k2], z3.Implies(z3.And(has[k], has[k2]), k == k2))),
     ]
 
 
